@@ -317,6 +317,11 @@ def run(ck):
                         continue
                     nidx += 1
                     late = [lb for lb in lens if any(g.dominates(pb, lb) for (pb, _) in pushes_)]
+                    if late:
+                        # the equivalent form: push first, then index = len() - 1
+                        oo = g.origins(rv["a"], deep=True)
+                        if any(a[0] == "bin" and a[1].startswith("Sub") for a in oo) and ("lit", 1) in oo:
+                            late = []
                     ck.ob("DOM", g.path, "parameter-index-read-before-the-push#%d" % nidx, bool(pushes_) and not late,
                           "the index is parameters.len() taken before the returned data is pushed" if pushes_ and not late else
                           "the index shifted into the response is parameters.len() read AFTER the push: it points one past the parameter that holds the returned data", g.loc(late[0]) if late else g.loc(bi))
